@@ -215,8 +215,15 @@ func replayStored(def PropertyDef, rep *Report, repo string, extra map[string]an
 	det, lost, skip := 0, 0, 0
 	dirs, _ := filepath.Glob(filepath.Join(verif, "seeded", def.ID+"-*"))
 	sort.Strings(dirs)
+	only := os.Getenv("CARLINT_REPLAY_ONLY") // debugging aid: replay the stored patches whose name contains this
 	for _, d := range dirs {
 		name := filepath.Base(d)
+		if only != "" && !strings.Contains(name, only) {
+			continue
+		}
+		if os.Getenv("CARLINT_DEBUG") != "" {
+			fmt.Fprintln(os.Stderr, "replay", name)
+		}
 		var meta struct {
 			Own bool `json:"detected_by_own_property_check"`
 		}
@@ -270,6 +277,12 @@ func replayStored(def PropertyDef, rep *Report, repo string, extra map[string]an
 		sort.Strings(files)
 		for _, f := range files {
 			name := filepath.Base(f)
+			if only != "" && !strings.Contains(name, only) {
+				continue
+			}
+			if os.Getenv("CARLINT_DEBUG") != "" {
+				fmt.Fprintln(os.Stderr, "replay", name)
+			}
 			ov, err := patchedFiles(repo, f)
 			if err != nil {
 				bres = append(bres, storedResult{Name: name, Status: "skipped: " + err.Error()})
